@@ -1,5 +1,7 @@
 (* C16 driver: one `c16` dump per line (lr dump + VA/VSH/VCR/VRO sections) ->
-     K coherent=<0|1> first=<0|1>   # RE <0|1> (all states reachable; only when not coherent)
+     K coherent=<0|1> first=<0|1> exact=<0|1>   (exact: the hypotheses of C16_coherent_b_exact_dump hold of this dump:
+                                                   wf_grammar, vS1, vS5, dump_edges_in_syms_b, core_la_in_toks_b)
+     # RE <0|1> (all states reachable; only when not coherent)
      # RB st a=<0|1> sh=<0|1> tg=<0|1> cr=<0|1> ro=<0|1> cl=<0|1>     (only states with a failing clause)
      # NE st tok                                  (cells erased by %nonassoc: candidates exist, specified cell is Error)
      # M ok|builderr|panic  # MSA st tok…   (state_actions of the mirror of the first half of StateTable::new, run on the
@@ -14,7 +16,8 @@ let () =
     if String.length line < 2 || String.sub line 0 2 <> "G " then "SKIP" else
     let d = parse_dump line in
     let g = grammar_of d in
-    let a = of_dump (dump_of d) in
+    let dd = dump_of d in
+    let a = of_dump dd in
     let secs = split_sections line in
     let ios = int_of_string in
     let pick tag = List.filter_map (function
@@ -28,7 +31,8 @@ let () =
     let b = Buffer.create 1024 in
     let fr = first_ref g in
     let coh = coherent_b g a v in
-    Buffer.add_string b (Printf.sprintf "K coherent=%s first=%s" (b2s coh) (b2s (match fr with Some _ -> true | None -> false)));
+    Buffer.add_string b (Printf.sprintf "K coherent=%s first=%s exact=%s" (b2s coh) (b2s (match fr with Some _ -> true | None -> false))
+      (b2s (wf_grammar g && vS1 g a && vS5 g a && dump_edges_in_syms_b g dd && core_la_in_toks_b g a)));
     let toks = List.init d.ntoks (fun x -> n_of_int x) in
     if not coh then begin
       Buffer.add_string b (Printf.sprintf " # RE %s" (b2s (all_reachable_b g a)));
